@@ -287,6 +287,10 @@ _add("C10", "(*main.clientApp).init", ["order-default-is-written-back"])
 _add("C04", S+"Recover", ["validated-bodies-are-queued-before-revalidation-starts", "recovered-wait-bodies-are-validated"])
 _add("C07", H+"routeValidate")
 _add("C05", B+"recover$1", ["poll-looks-back-to-the-file-time", "polls-unchanged-files-only"])
+_add("C07", "stage.ReadCompanions")
+_add("C20", "stage.upgradeCompanion")
+_add("C09", "stage.upgradeCompanion")
+_add("C20", S+"putFileAway", ["target-directory-made-after-the-record", "log-before-move", "finalized-after-move"])
 
 os.makedirs(os.path.join(V, "props"), exist_ok=True)
 for pid, p in P.items():
